@@ -1,5 +1,6 @@
 import Slu.Basic
 import Slu.Scalar
+import Slu.Model.Cx
 /-
 Complex arithmetic on `Cx R` (core Lean only).
 
@@ -24,14 +25,7 @@ instance : Conj Float32 := ⟨id⟩
 namespace Cx
 variable {R : Type}
 
-instance [Zero R] : Zero (Cx R) := ⟨⟨0, 0⟩⟩
-instance [Zero R] [One R] : One (Cx R) := ⟨⟨1, 0⟩⟩
-instance [Add R] : Add (Cx R) := ⟨fun a b => ⟨a.re + b.re, a.im + b.im⟩⟩
-instance [Sub R] : Sub (Cx R) := ⟨fun a b => ⟨a.re - b.re, a.im - b.im⟩⟩
-instance [Neg R] : Neg (Cx R) := ⟨fun a => ⟨-a.re, -a.im⟩⟩
-/-- `zz_mult(c, a, b)` -/
-instance [Add R] [Sub R] [Mul R] : Mul (Cx R) :=
-  ⟨fun a b => ⟨a.re * b.re - a.im * b.im, a.im * b.re + a.re * b.im⟩⟩
+-- Zero/One/Add/Sub/Neg/Mul on `Cx R` are the instances of Slu/Model/Cx.lean (same definitions)
 /-- `zz_conj(a, b)`: `a.r = b.r; a.i = -b.i` -/
 instance [Neg R] : Conj (Cx R) := ⟨fun a => ⟨a.re, -a.im⟩⟩
 
